@@ -705,7 +705,58 @@ def procedures(ctx):
     R.floor(rule, 12)
 
 
+def lmp_answers(ctx):
+    """Sibling consistency of LMP answers: a responder (one controller method,
+    closures included) answers exactly one request opcode, and every LMP
+    request whose returned future has a continuation is answered somewhere."""
+    R, p = ctx.r, ctx.p
+    rule = 'C03.lmp-answers'
+    ctl = p.cls(CTRL)
+    if ctl is None:
+        R.bad(rule, CTRL, 'anchor missing: ' + CTRL)
+        return
+    lmpm = p.modules.get('bumble.lmp')
+    req_opcode = {}
+    if lmpm:
+        for c in p.classes.values():
+            if c.module is lmpm and 'opcode' in c.assigns:
+                req_opcode[c.name] = text(c.assigns['opcode']).split('.')[-1]
+    ANSWERS = ('LmpAccepted', 'LmpNotAccepted', 'LmpAcceptedExt', 'LmpNotAcceptedExt')
+    answered = {}
+    n_resp = 0
+    for name, m in sorted(ctl.methods.items()):
+        ops = {}
+        for c in ast.walk(m):
+            if isinstance(c, ast.Call) and call_attr(c) in ANSWERS and c.args:
+                ops.setdefault(text(c.args[0]).split('.')[-1], []).append(c)
+        if not ops:
+            continue
+        n_resp += 1
+        for o in ops:
+            answered.setdefault(o, []).append(name)
+        R.check(len(ops) == 1, rule, f'{CTRL}.{name} | answers one request', f'all {sum(map(len, ops.values()))} LMP answer(s) name {sorted(ops)[0]}',
+                f'responder answers different requests on different paths: {sorted(ops)} (the peer waiting for one of them is never released)', p.loc(m))
+    # requests with a continuation
+    awaited = {}
+    for name, m in ctl.methods.items():
+        for n in ast.walk(m):
+            tgt = val = None
+            if isinstance(n, ast.Assign) and len(n.targets) == 1:
+                tgt, val = n.targets[0], n.value
+            if isinstance(val, ast.Call) and call_attr(val) == 'send_lmp_packet' and len(val.args) == 2 and isinstance(val.args[1], ast.Call):
+                cls = call_attr(val.args[1])
+                var = dotted(tgt)
+                used = any(isinstance(x, ast.Call) and dotted(x.func) == f'{var}.add_done_callback' for x in ast.walk(m)) or any(isinstance(x, ast.Await) and dotted(x.value) == var for x in ast.walk(m))
+                if used and cls in req_opcode:
+                    awaited.setdefault(req_opcode[cls], []).append(name)
+    for o, where in sorted(awaited.items()):
+        R.check(o in answered, rule, f'{CTRL} | {o} answered', f'request sent with a continuation in {sorted(set(where))}, answered in {sorted(set(answered.get(o, [])))}',
+                f'{o} is sent with a continuation in {sorted(set(where))} but no responder constructs an LMP (not-)accepted for it', '')
+    R.check(n_resp >= 3 and len(awaited) >= 2, rule, f'{CTRL} | coverage', f'{n_resp} responders, {len(awaited)} awaited request kinds', f'only {n_resp} responders / {len(awaited)} awaited requests recognised')
+
+
 RULES = [
+    ('C03.lmp-answers', lmp_answers),
     ('C03.host-send', host_send),
     ('C03.controller-reply', controller_reply),
     ('C03.procedures', procedures),
